@@ -1229,7 +1229,7 @@ func (c *seqCase) sweep() {
 	starts := append([][]byte{nil}, suffixes[1:]...)
 	starts = append(starts, moreStarts...)
 	depths := []int{0}
-	if ev.Tier() == "thorough" {
+	if ev.Tier() == "thorough" && c.r.Intn(3) == 0 {
 		depths = []int{0, 1, 2}
 	}
 	n := 0
